@@ -196,6 +196,8 @@ def run_case(c):
                 loss.backward()
             elif c['mode'] != 'ghost':
                 pending_loss, pend_xy = loss, (x, y)
+        if c.get('disable_first') and hasattr(wrapped, 'disable_hooks'):
+            wrapped.disable_hooks()        # public API; unwrapping must still remove everything
         std = wrapped.to_standard_module()
         if pending_loss is not None:
             # the graph built before unwrapping is an ordinary autograd graph now: its backward must behave as on a never-wrapped module
